@@ -174,9 +174,10 @@ theorem monoX_stepCreated (p : Pool) (t : Nat) (tk : PTask) : MonoX t p (p.stepC
     · exact h0.trans (monoX_afterWorker _ t _)
     · exact (h0.trans (monoX_modTask _ t _)).trans (monoX_suspendTask _ t _)
 
-theorem monoX_workerNext (p : Pool) (t : Nat) : MonoX t p (p.workerNext t) := by
+theorem monoX_workerNext (p : Pool) (t : Nat) (tk : PTask) : MonoX t p (p.workerNext t tk) := by
   unfold workerNext
-  exact (((tame_logEv p _).mono.toX t).trans (monoX_modTask _ t _)).trans (monoX_suspendTask _ t _)
+  exact ((((tame_logEv p _).mono.toX t).trans (monoX_modTask _ t _)).trans ((tame_runHooks _ _ _).mono.toX t)).trans
+    (monoX_suspendTask _ t _)
 
 theorem monoX_workerCancelled (p : Pool) (t : Nat) (tk : PTask) : MonoX t p (p.workerCancelled t tk) := by
   unfold workerCancelled
@@ -195,7 +196,7 @@ theorem monoX_stepInWorker (p : Pool) (t : Nat) (tk : PTask) : MonoX t p (p.step
   · exact (monoX_modTask p t _).trans (monoX_workerCancelled _ t tk)
   · split
     · split
-      · exact monoX_workerNext p t
+      · exact monoX_workerNext p t tk
       · exact monoX_afterWorker p t _
     · exact monoX_afterWorker p t _
     · exact MonoX.refl t p
